@@ -732,6 +732,20 @@ theorem C11_candidate_entities_agree {s : Schema} {rank trank : String → Nat} 
   have hrk := ranked_of_mirror s rank wf _ m num hinj d hd
   rw [C11_candidate_entities_generated wf wft hn roots hr num hinj d hd, C11_candidate_entities d _ hrk hu]
 
+/-- the same for the resolver dictionary **read off** the generated registry (`ofGen`: names, supertype lists, explicit and redeclared
+    attributes, inverse attributes of C02's `dictOf`) — no hypothesis on the dictionary is left: for every well-formed schema, the walk
+    over the registered subtype lists contains a keyword's entity exactly when the inverted entity is in that keyword's supertype closure,
+    and the dictionary is acyclic (`Ranked`), as every dictionary theorem above asks -/
+theorem C11_candidate_entities_generated_dict {s : Schema} {rank trank : String → Nat} (wf : WF s rank) (wft : WFT s trank)
+    (hn : (s.entities.map (·.name)).Nodup) (roots : List String) (hr : ∀ n, n ∈ roots ↔ n ∈ s.entities.map (·.name))
+    (num : String → Nat) (hinj : ∀ a b, num a = num b → a = b) (over k : Nat) :
+    (k ∈ candEntitiesBy (regSubs num (dictOf s roots).entities) ((ofGen num (dictOf s roots).entities).length + 1) over ↔
+      over ∈ typesOf (ofGen num (dictOf s roots).entities) k) ∧
+    Ranked (ofGen num (dictOf s roots).entities) (regRank num (dictOf s roots).entities rank) := by
+  have hd := sameHierarchy_ofGen num (dictOf s roots).entities
+  exact ⟨C11_candidate_entities_generated wf wft hn roots hr num hinj _ hd over k,
+    ranked_of_mirror s rank wf _ (mirrored_of_mirror s _ hn (C02_mirror wf wft hn roots hr)) num hinj _ hd⟩
+
 end Registry
 
 end StepModel.LazyRefs
